@@ -243,14 +243,16 @@ CLAIMS = {
         technique="Lean 4 no-op theorem by induction over the live-iterated subscriber list; lock-step correspondence; injection oracle",
         design="§8 C19"),
     'C08': dict(
-        text="Proof (Lean 4), J1939-21, about Model/Pre21.lean (the background pass over key SNAPSHOTS of the two session tables, the receive "
-             "thread handling a frame before the K-th session lookup, K arbitrary): the receive thread never adds or removes a send session "
+        text="Proof (Lean 4), BOTH data link layers, about Model/Pre21.lean and Model/Pre22.lean (the background pass over key SNAPSHOTS of "
+             "the session tables — and the multi-PG buffers on J1939-22 —, the receive thread handling a frame before the K-th lookup, K "
+             "arbitrary; c08_pre_pass_ok, c08_22_pre_pass_ok): the receive thread never adds or removes a send session "
              "(keys and order equal for every frame), so the send snapshot stays valid; the receive loop over ANY stale key list skips "
              "vanished sessions and never raises; from a well-formed state the pre-empted pass raises nothing (the thread stays alive), keeps "
              "the tables well-formed and asks for a wake-up strictly in the future; by induction over any history of sends, frames and "
              "arbitrarily pre-empted passes the thread never dies; a receive session that is not due is left exactly as it is by the pass "
-             "(no packet is lost to it).  Partial: pre-emption INSIDE the handling of one session (line level), the ECU timer loop, the "
-             "sleep/wake-up race and all of J1939-22 are decided on the real code by the line-tracer oracle, not by theorems; 'same outcome' "
+             "(no packet is lost to it); the J1939-21 receive thread never changes a table without requesting a pass, so a session it made "
+             "due behind the pass is picked up at once.  Partial: pre-emption INSIDE the handling of one session (line level), the ECU "
+             "timer loop and the sleep/wake-up race are decided on the real code by the line-tracer oracle, not by theorems; 'same outcome' "
              "is established there as intact exactly-once delivery + idle tables + live thread.",
         note="Proved for the code as repaired by D19; D20 (J1939-22 state after send) found and repaired through the oracle. Tie: recorded "
              "scripts in which the REAL async_job_thread is pre-empted from a line tracer before its K-th lookup and the frame is handled "
